@@ -248,8 +248,31 @@ def coq_uaction(m):
 
 
 def coq_cfg(cfg):
-  return '{| when := %s; deps := %s; fcols := %s |}' % (
-      cfg['when'], core.zlist(cfg['deps']), core.coq_list(['(%s, %s)' % (z(f), z(s)) for f, s in FCOLS]))
+  fx = detect_fixes()
+  return '{| when := %s; deps := %s; fcols := %s; fx := {| fx_add := %s; fx_lost := %s; fx_stale := %s; fx_trim := %s |} |}' % (
+      cfg['when'], core.zlist(cfg['deps']), core.coq_list(['(%s, %s)' % (z(f), z(s)) for f, s in FCOLS]),
+      core.boollit(fx['add']), core.boollit(fx['lost']), core.boollit(fx['stale']), core.boollit(fx['trim']))
+
+
+# Which of the proposed repairs (notes/proposed_fixes/C15-*.diff) does the source under test contain?  Found out by
+# replaying the minimal witness of each known finding; the model's switches [fx] are set accordingly, so the
+# correspondence check keeps meaning "the model is the source" before and after such a repair lands.
+_ADD3 = [['add', [None, None, None], [A], [[1], [2], [3]]]]
+FIX_WITNESSES = {
+  'add': ({'when': 'DEFAULT', 'deps': [A]}, [[['add', [None], [A, TR], [[3, 50]]]]]),
+  'lost': ({'when': 'DEFAULT', 'deps': [A]}, [_ADD3, [['upd', [1], [A, TR], [[5, 77]]], ['upd', [2], [B], [[1]]]]]),
+  'stale': ({'when': 'DEFAULT', 'deps': [A]}, [_ADD3, [['ren', A], ['upd', [1], [A], [[100]]]]]),
+  'trim': ({'when': 'DEFAULT', 'deps': [F]}, [_ADD3, [['upd', [1], [TR, B], [[1, 9]]]]]),
+}
+_FIXES = {}
+
+
+def detect_fixes():
+  if not _FIXES:
+    for k, (cfg, bundles) in FIX_WITNESSES.items():
+      res = run_history(cfg, copy.deepcopy(bundles))[-1]
+      _FIXES[k] = not judge(cfg, res)[0]
+  return _FIXES
 
 
 CHECK_DEFS = '''
@@ -272,6 +295,9 @@ Fixpoint replay (g : cfg) (t : tbl) (h : list obs) : bool :=
       table_ok t' after && replay g t' h'
   end.
 Definition check (c : cfg * list obs) := replay (fst c) empty_tbl (snd c).
+(* typed constructors, so that empty lists in the generated terms have a type *)
+Definition ob (a : list uaction) (ev mu my : list Z) (after : list (Z * list (Z * Z))) : obs := (a, ev, mu, my, after).
+Definition mk (g : cfg) (h : list obs) : cfg * list obs := (g, h).
 '''
 
 
@@ -293,6 +319,7 @@ class Oracle(object):
     self.cancel = {}        # row -> (index of the user action, how) of the last explicit value
     self.triggers = {}      # row -> [(index, dependency column)] that made it "must" since the last cancel
     self.schema = []        # (index, position inside the action, kind, column)
+    self.removed = set()    # row ids removed earlier in this bundle (an add may take such an id again)
     self.idx = -1
 
   def cell(self, r, c):
@@ -310,6 +337,7 @@ class Oracle(object):
     elif d[0] == 'DRem':
       for r in d[1]:
         self.tab.pop(r, None)
+        self.removed.add(r)
 
   # -- the sentence
   def dep_changed(self, r, kv, c):
@@ -431,7 +459,10 @@ def judge(cfg, res):
     if lc is None:
       kind = 'fired-without-cause'
     elif lc[1] == 'add':
-      kind = 'add-with-value' if (cfg['when'] == 'DEFAULT' and cfg['deps']) else 'add-recalculated'
+      # the value a record is added with is not protected: visible when something makes the new row dirty -
+      # its dependencies (DEFAULT with recalcDeps) or the removal of a row with the same id earlier in the bundle
+      known_shape = (cfg['when'] == 'DEFAULT' and cfg['deps']) or r in o.removed
+      kind = 'add-with-value' if known_shape else 'add-recalculated'
     elif lc[1] == 'upd-trimmed':
       kind = 'explicit-value-trimmed'
     elif lc[0] < nact - 1:
@@ -567,9 +598,9 @@ def coq_case(cfg, results, verdicts):
   for res, (must, may) in zip(results, verdicts):
     after = core.coq_list(['(%s, %s)' % (z(r), core.coq_list(['(%s, %s)' % (z(c), z(v)) for c, v in sorted(cv.items())]))
                            for r, cv in sorted(res['after'].items())])
-    obs.append('(%s, %s, %s, %s, %s)' % (core.coq_list([coq_uaction(m) for m in res['model']]),
-                                         core.zlist(sorted(set(res['evals']))), core.zlist(must), core.zlist(may), after))
-  return '(%s, %s)' % (coq_cfg(cfg), core.coq_list(obs))
+    obs.append('(ob %s %s %s %s %s)' % (core.coq_list([coq_uaction(m) for m in res['model']]),
+                                        core.zlist(sorted(set(res['evals']))), core.zlist(must), core.zlist(may), after))
+  return '(mk %s %s)' % (coq_cfg(cfg), core.coq_list(obs))
 
 
 # Small-scope enumeration (thorough tier): on the table {1: A=1 B=0, 2: A=2 B=2} every bundle of one or two
@@ -644,6 +675,9 @@ def describe(res):
 
 def correspond(ctx):
   cases, keys = [], []
+  ctx.extra['source_variant'] = {'repairs_detected_in_source': dict(detect_fixes())}
+  if any(detect_fixes().values()):
+    ctx.log('source contains repairs: %r (model switched accordingly)' % (detect_fixes(),))
   for cfg, bundles, results in histories(ctx):
     verdicts = []
     for res in results:
@@ -728,7 +762,10 @@ TRUSTED = ['Model/Trigger.v [mech_*]: hand-written model of the four code sites,
            'engine (rows for which Engine._recompute_one_cell evaluates the trigger column per bundle, and the '
            'table contents) by vm_compute replay of the same histories',
            'Model/Trigger.v [spec_*]: the property sentence; compared on every run with the independent Python '
-           'oracle of harness/props/c15.py on the same histories']
+           'oracle of harness/props/c15.py on the same histories',
+           'the switches [fx] of the model (which proposed repairs the source contains) are set by replaying the '
+           'four repairable witnesses on the source at the start of every run (detect_fixes); the theorems hold '
+           'for every setting of the switches']
 ASSUMPTIONS = ['kernel scope: one table, int cell values, formula columns reading one data column of the same row, '
                'trigger column configuration fixed during the history, no lookups/references in dependencies',
                'replayed doc actions (undo) are read as explicit values for every cell they carry',
